@@ -360,6 +360,32 @@ def _step_agreement(ctx: Ctx, fi: FuncInfo) -> None:
         and isinstance(inner.target, ast.Tuple) and len(
         inner.target.elts) == 2 and all(
         isinstance(t, ast.Name) for t in inner.target.elts)
+    day_body = list(inner.body)
+    dayn = entn = None
+    if ok_inner:
+        dayn, entn = (t.id for t in inner.target.elts)
+    elif isinstance(it, ast.Call) and ast.unparse(it.func) == "range" and \
+            not it.keywords and ast.unparse(it).replace(" ", "") in (
+            f"range({days_n})", f"range(0,{days_n})") and isinstance(
+            inner.target, ast.Name):
+        # the other spelling: for day in range(days): entry = y[day, team]
+        dayn = inner.target.id
+        binds = [b for b in inner.body if isinstance(
+            b, (ast.Assign, ast.AnnAssign)) and getattr(
+            b, "value", None) is not None and ast.unparse(b.value).replace(
+            " ", "") in (f"{yp}[{dayn},{t1n}]", f"int({yp}[{dayn},{t1n}])")
+            and isinstance(b.targets[0] if isinstance(b, ast.Assign)
+                           else b.target, ast.Name)]
+        if len(binds) == 1 and inner.body[0] is binds[0]:
+            tg_ = binds[0].targets[0] if isinstance(
+                binds[0], ast.Assign) else binds[0].target
+            entn = tg_.id
+            rebound = [n_ for b in inner.body[1:] for n_ in ast.walk(b)
+                       if isinstance(n_, ast.Name) and isinstance(
+                           n_.ctx, ast.Store) and n_.id in (entn, dayn)]
+            if not rebound:
+                day_body = list(inner.body[1:])
+                ok_inner = True
     ctx.ob("D7.4", fi, outer, ok_outer and ok_inner,
            "every team's column of the plan is scanned over all days in "
            "ascending order" if ok_outer and ok_inner else
@@ -367,7 +393,6 @@ def _step_agreement(ctx: Ctx, fi: FuncInfo) -> None:
            "enumerate(y[:, team])`", construct="scan structure")
     if not (ok_outer and ok_inner):
         return
-    dayn, entn = (t.id for t in inner.target.elts)
     ev = make_evaluator(repo, fi)
     ev.tolerant_loops = True
     base = Env()
@@ -400,7 +425,6 @@ def _step_agreement(ctx: Ctx, fi: FuncInfo) -> None:
         return
     flags = [k for k, v in pre.vars.items() if v in (("true",), ("false",))
              and k not in base_keys]
-    dayn, entn = (t.id for t in inner.target.elts)
     hflag = aflag = hlen = alen = None
     # roles by behaviour: a home game (entry > 0) played outside any streak
     # raises the home flag and sets the home streak length to 1
@@ -416,7 +440,7 @@ def _step_agreement(ctx: Ctx, fi: FuncInfo) -> None:
                 probe.vars[k] = Poly.var("L$" + k)
             probe.vars[dayn] = Poly.var("day")
             probe.vars[entn] = Poly.var("T")
-            pout = ev.block(probe, inner.body)
+            pout = ev.block(probe, day_body)
             sp0 = Splitter()
             for sign, role in ((1, "h"), (-1, "a")):
                 kf = sp0.facts_of(("lt", Poly.const(0), Poly.var("T").scale(
@@ -494,7 +518,7 @@ def _step_agreement(ctx: Ctx, fi: FuncInfo) -> None:
         env.vars[dayn] = day
         env.vars[entn] = T
         try:
-            out = ev.block(env, inner.body)
+            out = ev.block(env, day_body)
         except Unsupported as u:
             problems.append(f"[{sname}] cannot normalise the step: {u}")
             continue
